@@ -1255,8 +1255,23 @@ class Var:
             )
 
         # avoid infinite recursion
+        auto_transform = self.auto_transform
         self.auto_transform = False
 
+        try:
+            return self._transform(bijector, *bijector_args, **bijector_kwargs)
+        except Exception:
+            # a rejected call leaves the request for an automatic transformation
+            # as it was
+            self.auto_transform = auto_transform
+            raise
+
+    def _transform(
+        self,
+        bijector: type[jb.Bijector] | jb.Bijector | None = None,
+        *bijector_args,
+        **bijector_kwargs,
+    ) -> Var:
         # the bijector and the transformed value are computed from the cached
         # values of the inputs, which are not kept up-to-date outside of a model
         _update_recursive_inputs(self)
